@@ -2,7 +2,6 @@ package xpath
 
 import (
 	"math"
-	"strconv"
 )
 
 // The XPath number operator function list.
@@ -89,10 +88,7 @@ func cmpBooleanAny(t iterator, op string, m, n interface{}) bool {
 		case float64:
 			return v
 		case string:
-			if f, err := strconv.ParseFloat(v, 64); err == nil {
-				return f
-			}
-			return math.NaN()
+			return stringToNumber(v)
 		}
 		if asBool(t, v) {
 			return 1
@@ -111,10 +107,7 @@ func cmpNumericNumeric(t iterator, op string, m, n interface{}) bool {
 func cmpNumericString(t iterator, op string, m, n interface{}) bool {
 	a := m.(float64)
 	b := n.(string)
-	num, err := strconv.ParseFloat(b, 64)
-	if err != nil {
-		num = math.NaN()
-	}
+	num := stringToNumber(b)
 	return cmpNumberNumberF(op, a, num)
 }
 
@@ -127,10 +120,7 @@ func cmpNumericNodeSet(t iterator, op string, m, n interface{}) bool {
 		if node == nil {
 			break
 		}
-		num, err := strconv.ParseFloat(node.Value(), 64)
-		if err != nil {
-			num = math.NaN()
-		}
+		num := stringToNumber(node.Value())
 		if cmpNumberNumberF(op, a, num) {
 			return true
 		}
@@ -146,10 +136,7 @@ func cmpNodeSetNumeric(t iterator, op string, m, n interface{}) bool {
 		if node == nil {
 			break
 		}
-		num, err := strconv.ParseFloat(node.Value(), 64)
-		if err != nil {
-			num = math.NaN()
-		}
+		num := stringToNumber(node.Value())
 		if cmpNumberNumberF(op, num, b) {
 			return true
 		}
@@ -202,10 +189,7 @@ func cmpNodeSetNodeSet(t iterator, op string, m, n interface{}) bool {
 func cmpStringNumeric(t iterator, op string, m, n interface{}) bool {
 	a := m.(string)
 	b := n.(float64)
-	num, err := strconv.ParseFloat(a, 64)
-	if err != nil {
-		num = math.NaN()
-	}
+	num := stringToNumber(a)
 	return cmpNumberNumberF(op, num, b)
 }
 
